@@ -361,3 +361,21 @@ func (o *oracle) adjacentValid(view viewFn, lo, hi int64, now time.Time) bool {
 	}
 	return true
 }
+
+// stepStrict: is next acceptable from prev in ONE non-adjacent step under the STRICT reading of every
+// comparison (strictly more than the trust level of prev's own validator set, strictly inside the
+// clock-drift and trusting-period bounds)?  Used only to decide whether a provider "can back" its header
+// (clause D); a header that passes this passes every reading.
+func (o *oracle) stepStrict(prev, next *types.LightBlock, now time.Time) bool {
+	if prev == nil || next == nil || prev.ValidatorSet == nil || !o.wellFormed(next) || next.Height <= prev.Height+1 {
+		return false
+	}
+	if !next.Time.After(prev.Time) || !next.Time.Before(now.Add(o.p.drift)) || !prev.Time.Add(o.p.period).After(now) {
+		return false
+	}
+	if !bytes.Equal(valsHash(prev.ValidatorSet), prev.ValidatorsHash) || !o.ownTwoThirds(next) {
+		return false
+	}
+	s, t := o.signedPower(prev.ValidatorSet, next.Commit)
+	return t.Sign() > 0 && ref.FractionExceeded(s, t, uint64(o.p.num), uint64(o.p.den))
+}
